@@ -29,6 +29,13 @@
 //! non-default iteration orders of okane's internal maps (verif hook; d = 1 quick, 2 thorough). L4 puts canonical
 //! account records before, between and after the alias records of the account table.
 //!
+//! Part E (value classes the small alphabets lack). E1/E2: alias and canonical names over every printable ASCII
+//! punctuation character, digits, inner blanks and non-ASCII characters in every position of the name and all
+//! ordered pairs; judged when the name is legal by doc/syntax.md and a declaration-free control ledger can write a
+//! posting with it; absolute oracle (everything booked under the declared canonical name). E3: blanks after and
+//! before directive arguments (space, tab: MUST / if-accepted; U+00A0, U+3000, U+2003: DON'T-CARE, doc and tree
+//! disagree). E4: directive before / after first use, in an included file, used from an included file, repeated.
+//!
 //! Part B (conflicts, explicit-state search over histories). Names {p,q,r}, two name spaces (accounts,
 //! commodities). Actions: use a name in a posting, `account c`, `account c` + `alias a` (incl. a = c),
 //! `account c` + `alias a` + `alias b` (same for `commodity`). Reference state K = alias table
@@ -52,12 +59,14 @@ use crate::q::{qmap_add, qmap_show, QMap, Q};
 pub const DEF: CheckDef = CheckDef {
     id: "C12",
     run,
-    technique: "part A: stateless exhaustive substitution (every assignment canonical/alias1/alias2 to every mention site of three base ledgers, metamorphic comparison with the all-canonical run through the API and the in-process CLI); part C: the same exhaustive substitution over the mention sites of a price-database file given with --price-db; part D: absolute completeness of the per-account register under every map-iteration order with <= d deviations (order-controllable map behind --cfg okane_verif); part B: explicit-state BFS over alias tables plus all raw action sequences up to a depth bound, each edge re-running the real book-keeping on the whole history and observing the resulting table through probe postings",
-    rule: "part A case = (base ledger, assignment of a declared name to each of its 10..15 mention sites); states = distinct substituted ledgers. Part C case = (base ledger L2/L3 in canonical or alias spelling, assignment of a declared name to each of the 9 resp. 7 mention sites of its price DB), all 2 592 resp. 648 assignments in both tiers. Part D case = (base ledger L1..L4, canonical form or one account site written as an alias), inside which all executions with <= 1 (thorough 2) non-default map orders are explored and every account's restricted register is compared with the unrestricted one. Part B case = (reference-accepted history, next action) over names {p,q,r} x {accounts, commodities}; states = distinct alias tables (B1) resp. distinct histories (B2); transitions = cases executed on the real code. A case is MUST when the statement fixes the outcome: substituted ledger == canonical ledger in every report; alias-already-canonical (declared or merely used) and canonical-already-alias rejected with an error; every other first declaration / use accepted with all balances under the canonical name",
+    technique: "part A: stateless exhaustive substitution (every assignment canonical/alias1/alias2 to every mention site of three base ledgers, metamorphic comparison with the all-canonical run through the API and the in-process CLI); part C: the same exhaustive substitution over the mention sites of a price-database file given with --price-db; part D: absolute completeness of the per-account register under every map-iteration order with <= d deviations (order-controllable map behind --cfg okane_verif); part E: exhaustive enumeration of name value classes (every printable ASCII punctuation character, digits, blanks, non-ASCII, all positions and ordered pairs), of blanks around directive arguments and of directive placements (incl. included files) against an absolute oracle; part B: explicit-state BFS over alias tables plus all raw action sequences up to a depth bound, each edge re-running the real book-keeping on the whole history and observing the resulting table through probe postings",
+    rule: "part A case = (base ledger, assignment of a declared name to each of its 10..15 mention sites); states = distinct substituted ledgers. Part C case = (base ledger L2/L3 in canonical or alias spelling, assignment of a declared name to each of the 9 resp. 7 mention sites of its price DB), all 2 592 resp. 648 assignments in both tiers. Part D case = (base ledger L1..L4, canonical form or one account site written as an alias), inside which all executions with <= 1 (thorough 2) non-default map orders are explored and every account's restricted register is compared with the unrestricted one. Part E case = (account|commodity, name from the shape x character tables, role alias|canonical) resp. (blank variant) resp. (placement, name); same in both tiers. Part B case = (reference-accepted history, next action) over names {p,q,r} x {accounts, commodities}; states = distinct alias tables (B1) resp. distinct histories (B2); transitions = cases executed on the real code. A case is MUST when the statement fixes the outcome: substituted ledger == canonical ledger in every report; alias-already-canonical (declared or merely used) and canonical-already-alias rejected with an error; every other first declaration / use accepted with all balances under the canonical name",
     assumptions: &[
         "the all-canonical form of each base ledger is the reference of part A; its `balance` report is pinned to a hand-checked text so that a change hitting canonical and alias spellings alike is still reported",
         "DON'T-CARE: alias of itself (`account p` + `alias p`), alias re-pointed to another canonical; duplicate declarations (`account p` twice, identical alias twice) may be rejected, but if accepted must leave the table unchanged",
         "aliases given as command-line arguments (`register FILE <alias>`, `-X <alias>`) and the commodity written inside a `format` line are outside the statement and not judged",
+        "part E judges a name only if doc/syntax.md allows it (account ::= no-sp (no-sp | ' ' no-sp)*, commodity = characters outside the documented exclusion set, no Unicode blank at either end) and a control ledger without declarations books a posting written with it under exactly that name (so `;`, a leading `*`/`!`/`(`/`[` etc. are DON'T-CARE)",
+        "ASCII blanks after the `account`/`commodity` argument must be accepted (doc: sp*); after an `alias` argument the doc has no sp*, so acceptance is not required but if accepted the alias is the trimmed name; a trailing U+00A0/U+3000/U+2003 is DON'T-CARE (doc: part of the name; tree: trimmed)",
         "a `P` line of the price DB given with --price-db counts as a later mention of the commodity (the DB is read after the ledger, i.e. after every declaration); a DB naming only commodities the ledger never mentions is executed but not judged",
         "quick tier: a base ledger with more than 20 000 assignments is explored over all 2^n canonical/one-alias assignments plus all full-arity assignments with at most 2 non-canonical sites; thorough explores all full-arity assignments",
     ],
@@ -1181,6 +1190,337 @@ fn part_d(ctx: &mut Ctx, path: &Path) -> u64 {
 }
 
 // =================================================================================================
+// Part E — value classes of names, blanks after directive arguments, placement of the directive
+// =================================================================================================
+//
+// E1/E2: alias and canonical names over EVERY printable ASCII punctuation character, digits, inner single blanks and
+// non-ASCII characters, in every position of the name (inner / leading / trailing / after a blank / before a blank /
+// a word of its own; all ordered pairs of characters). A name is judged (MUST) when it is legal by doc/syntax.md
+// (account ::= no-sp (no-sp | " " no-sp)*; commodity ::= one or more characters outside the documented exclusion set)
+// AND a control ledger without any declaration shows that a posting can be written with exactly this name; otherwise
+// DON'T-CARE (e.g. `;` starts a comment, a leading `*` or `!` is the cleared flag). Oracle (absolute): with
+// `account T` + `alias N`, a posting written N is booked on T and nothing else appears; with `account N` +
+// `alias z`, a posting written z is reported under exactly N.
+// E3: blanks after the directive arguments and between keyword and argument. E4: the directive before / after the
+// first use of the canonical name, in an included file, repeated with another alias.
+
+const ASCII_PUNCT: &str = "!\"#$%&'()*+,-./:;<=>?@[\\]^_`{|}~";
+const EXTRA_CHARS: &[char] = &['0', '7', '\u{e9}', '\u{5186}', '\u{fc}', '\u{a0}', '\u{3000}'];
+const DOC_NON_COMMODITY: &str = "- \t\r\n0123456789.,;:?!+*/^&|=<>[](){}@";
+
+fn name_chars() -> Vec<char> {
+    ASCII_PUNCT.chars().chain(EXTRA_CHARS.iter().copied()).collect()
+}
+
+fn char_category(c: char) -> &'static str {
+    match c {
+        ';' | '#' | '%' | '|' | '*' => "comment-prefix-char",
+        '(' | ')' | '[' | ']' | '{' | '}' | '<' | '>' => "bracket-char",
+        '\'' | '"' | '`' => "quote-char",
+        '0'..='9' => "digit",
+        ' ' => "inner-blank",
+        c if c.is_whitespace() => "unicode-blank",
+        c if !c.is_ascii() => "non-ascii-char",
+        c if c.is_ascii_alphabetic() => "letter",
+        _ => "other-punctuation",
+    }
+}
+
+/// The most specific category among the non-letter characters of a name (for signatures and classes).
+fn name_category(name: &str) -> &'static str {
+    let order = ["comment-prefix-char", "unicode-blank", "bracket-char", "quote-char", "other-punctuation", "non-ascii-char", "digit", "inner-blank", "letter"];
+    let cats: BTreeSet<&str> = name.chars().map(char_category).collect();
+    order.iter().find(|o| cats.contains(*o)).copied().unwrap_or("letter")
+}
+
+fn doc_legal(kind: Kind, name: &str) -> bool {
+    let edge_blank = name.chars().next().map(|c| c.is_whitespace()).unwrap_or(true) || name.chars().last().map(|c| c.is_whitespace()).unwrap_or(true);
+    match kind {
+        Kind::Account => !edge_blank && !name.contains("  ") && !name.contains(['\t', '\r', '\n']),
+        Kind::Commodity => !name.is_empty() && !edge_blank && !name.chars().any(|c| DOC_NON_COMMODITY.contains(c)),
+    }
+}
+
+/// (label of the shape, name) for one varying character / pair of characters.
+fn account_names() -> Vec<(&'static str, String)> {
+    let mut v: Vec<(&'static str, String)> = vec![];
+    for n in ["Visa *1234", "Bus #5", "Apt #12", "R&D|Ops", "50% share", "Assets:Bank (JPY)", "\u{8cc7}\u{7523}:\u{9280}\u{884c}", "Caf\u{e9} cr\u{e8}me", "a.b-c_d/e", "x=y", "card@home", "[virtual]", "(paren)", "1st Street 22", "Q&A", "C++", "what?", "~tilde", "back\\slash", "it's", "\"quoted\" name"] {
+        v.push(("realistic", n.to_string()));
+    }
+    let cs = name_chars();
+    for c in &cs {
+        v.push(("inner", format!("a{}b", c)));
+        v.push(("leading", format!("{}ab", c)));
+        v.push(("trailing", format!("ab{}", c)));
+        v.push(("after-blank", format!("a {}b", c)));
+        v.push(("before-blank", format!("a{} b", c)));
+        v.push(("own-word", format!("a {} b", c)));
+    }
+    for c1 in &cs {
+        for c2 in &cs {
+            v.push(("pair", format!("a{}{}b", c1, c2)));
+            v.push(("pair-around-blank", format!("a{} {}b", c1, c2)));
+        }
+    }
+    v
+}
+
+fn commodity_names() -> Vec<(&'static str, String)> {
+    let mut v: Vec<(&'static str, String)> = vec![];
+    for n in ["$", "US$", "\u{a5}", "\u{5186}", "\u{7c73}\u{30c9}\u{30eb}", "\u{20ac}", "\u{a3}", "dollar", "A_B", "%", "#", "B'", "\u{5143}"] {
+        v.push(("realistic", n.to_string()));
+    }
+    let cs = name_chars();
+    for c in &cs {
+        v.push(("alone", c.to_string()));
+        v.push(("inner", format!("a{}b", c)));
+        v.push(("leading", format!("{}a", c)));
+        v.push(("trailing", format!("a{}", c)));
+    }
+    for c1 in &cs {
+        for c2 in &cs {
+            v.push(("pair", format!("{}{}", c1, c2)));
+        }
+    }
+    v
+}
+
+fn run_files(files: &[(&str, &str)]) -> Result<Balances, String> {
+    oka::with_ledger(files, oka::ROOT, None, |r| match r {
+        Ok((l, ctx)) => match l.balance(ctx, &BalanceQuery::default()) {
+            Ok(b) => Ok(oka::clean_balances(&oka::balance_to_map(&b))),
+            Err(e) => Err(format!("balance query failed: {}", e)),
+        },
+        Err(e) => Err(format!("{}: {}", e.variant, e.rendered.lines().next().unwrap_or(""))),
+    })
+}
+
+fn run_one(text: &str) -> Result<Balances, String> {
+    run_files(&[(oka::ROOT, text)])
+}
+
+/// Posting of amount `v` written with the given account / commodity name.
+fn use_of(kind: Kind, name: &str, v: i128) -> String {
+    match kind {
+        Kind::Account => format!("2024/01/01 use\n  {}  {} X\n  E\n\n", name, v),
+        Kind::Commodity => format!("2024/01/01 use\n  A  {} {}\n  E\n\n", v, name),
+    }
+}
+
+/// Expected balances when everything written so far sits under `canonical`.
+fn expect_under(kind: Kind, canonical: &str, total: i128) -> Balances {
+    let mut b = Balances::new();
+    match kind {
+        Kind::Account => {
+            qmap_add(b.entry(canonical.to_string()).or_default(), "X", Q::int(total));
+            qmap_add(b.entry("E".to_string()).or_default(), "X", Q::int(-total));
+        }
+        Kind::Commodity => {
+            qmap_add(b.entry("A".to_string()).or_default(), canonical, Q::int(total));
+            qmap_add(b.entry("E".to_string()).or_default(), canonical, Q::int(-total));
+        }
+    }
+    b
+}
+
+fn keyword(kind: Kind) -> &'static str {
+    match kind {
+        Kind::Account => "account",
+        Kind::Commodity => "commodity",
+    }
+}
+
+/// How an accepted result misses the expectation (for signatures).
+fn miss_kind(kind: Kind, got: &Balances, alias: &str) -> &'static str {
+    let shown = match kind {
+        Kind::Account => got.contains_key(alias),
+        Kind::Commodity => got.values().any(|m| m.contains_key(alias)),
+    };
+    if shown {
+        "split-under-alias-name"
+    } else {
+        "booked-under-another-name"
+    }
+}
+
+/// E1/E2: one name in one role. role 0: N is an alias of a plain canonical name; role 1: N is the canonical name.
+fn judge_name(kind: Kind, shape: &str, name: &str, role: usize, cli: Option<&Path>) -> Outcome {
+    let (plain_canonical, plain_alias) = match kind {
+        Kind::Account => ("Tgt:Acct", "zz"),
+        Kind::Commodity => ("TGT", "zz"),
+    };
+    let kn = kind_name(kind);
+    let cat = name_category(name);
+    let rolen = ["name-as-alias", "name-as-canonical"][role];
+    // control: can a posting be written with exactly this name?
+    let control_ok = run_one(&use_of(kind, name, 1)).map(|b| b == expect_under(kind, name, 1)).unwrap_or(false);
+    let legal = doc_legal(kind, name);
+    let (text, want, written) = if role == 0 {
+        (format!("{} {}\n  alias {}\n\n{}{}", keyword(kind), plain_canonical, name, use_of(kind, name, 1), use_of(kind, plain_canonical, 2)), expect_under(kind, plain_canonical, 3), name)
+    } else {
+        (format!("{} {}\n  alias {}\n\n{}{}", keyword(kind), name, plain_alias, use_of(kind, plain_alias, 1), use_of(kind, name, 2)), expect_under(kind, name, 3), plain_alias)
+    };
+    let got = run_one(&text);
+    if let (Some(p), Ok(b)) = (cli, &got) {
+        std::fs::write(p, &text).expect("write scratch ledger");
+        let out = run_cli(&["okane".to_string(), "balance".to_string(), p.to_string_lossy().to_string()]);
+        let same = parse_balance_report(&out).map(|v| oka::clean_balances(&v.into_iter().collect()) == *b);
+        // names with ": " or blanks cannot always be re-parsed from the report text: only a definite disagreement counts
+        if same == Some(false) && !name.contains(": ") && !name.contains(' ') {
+            return Outcome::violation(format!("names/{}/cli-disagrees-with-api", kn), format!("name {:?}\nAPI balances {:?}\n`okane balance`:\n{}", name, show_bal(b), out));
+        }
+    }
+    if !(legal && control_ok) {
+        let why = if !legal { "not-a-documented-name" } else { "posting-cannot-be-written-with-this-name" };
+        let _ = &got;
+        return Outcome::dont_care(format!("names/{}/not-judged/{}", kn, why));
+    }
+    match got {
+        Ok(b) if b == want => Outcome::pass(format!("names/{}/transparent/{}", kn, cat)),
+        Ok(b) => Outcome::violation(
+            format!("names/{}/{}/{}/{}", kn, rolen, miss_kind(kind, &b, written), cat),
+            format!("name {:?} ({}): a posting written {:?} must be booked on the declared canonical name\nexpected balances {:?}\nobserved balances {:?}", name, shape, written, show_bal(&want), show_bal(&b)),
+        ),
+        Err(e) => Outcome::violation(format!("names/{}/{}/rejected/{}", kn, rolen, cat), format!("name {:?} ({}) is a documented {} name and a posting can be written with it, but the ledger that declares it is rejected: {}", name, shape, kn, e)),
+    }
+}
+
+/// Verdict for a non-ASCII blank (U+00A0, U+3000, U+2003) after a directive argument. doc/syntax.md defines
+/// sp ::= [ \t] and lets every other character (U+3000 included) be part of an account / commodity name, so by the
+/// document `alias 円<U+3000>` declares the alias "円<U+3000>"; the unchanged tree trims every Unicode White_Space and
+/// declares "円". Each reading makes the other implementation non-transparent, the property statement does not choose:
+/// DON'T-CARE, the observed reading is recorded in the outcome class. Set to "if-accepted" to make the tree's reading
+/// (blank trimmed, alias resolves) binding.
+const NON_ASCII_TRAILING_BLANK_VERDICT: &str = "dont-care";
+
+/// E3: blanks between keyword and argument and after the argument, on the name line and on the alias line.
+fn blanks_cases() -> Vec<(Kind, &'static str, &'static str, &'static str, String)> {
+    // (kind, line, what, verdict, text); verdict: "must" | "if-accepted" | "dont-care"
+    let mut v = vec![];
+    for kind in [Kind::Account, Kind::Commodity] {
+        let (t, a) = match kind {
+            Kind::Account => ("Tgt:Acct", "b b"),
+            Kind::Commodity => ("TGT", "\u{5186}"),
+        };
+        let body = format!("{}{}", use_of(kind, a, 1), use_of(kind, t, 2));
+        let trailing: [(&str, &str, bool); 8] = [("one-space", " ", true), ("two-spaces", "  ", true), ("tab", "\t", true), ("space-tab-space", " \t ", true), ("nbsp-U+00A0", "\u{a0}", false), ("ideographic-space-U+3000", "\u{3000}", false), ("space-then-U+3000", " \u{3000}", false), ("em-space-U+2003", "\u{2003}", false)];
+        for (label, tr, ascii) in trailing {
+            // doc: `"account" sp+ account sp* new-line`, `sp+ "alias" sp+ account new-line`, sp ::= [ \t]
+            v.push((kind, "name-line", label, if ascii { "must" } else { NON_ASCII_TRAILING_BLANK_VERDICT }, format!("{} {}{}\n  alias {}\n\n{}", keyword(kind), t, tr, a, body)));
+            v.push((kind, "alias-line", label, if ascii { "if-accepted" } else { NON_ASCII_TRAILING_BLANK_VERDICT }, format!("{} {}\n  alias {}{}\n\n{}", keyword(kind), t, a, tr, body)));
+        }
+        for (label, sep) in [("two-spaces", "  "), ("tab", "\t"), ("space-tab-space", " \t ")] {
+            v.push((kind, "name-line-separator", label, "must", format!("{}{}{}\n  alias {}\n\n{}", keyword(kind), sep, t, a, body)));
+            v.push((kind, "alias-line-separator", label, "must", format!("{} {}\n  alias{}{}\n\n{}", keyword(kind), t, sep, a, body)));
+            v.push((kind, "alias-line-indent", label, "must", format!("{} {}\n{}alias {}\n\n{}", keyword(kind), t, sep, a, body)));
+        }
+    }
+    v
+}
+
+/// E4: where the directive stands. (kind, placement, verdict, files, expected total, alias, canonical)
+fn placement_cases() -> Vec<(Kind, &'static str, &'static str, Vec<(String, String)>, i128, String)> {
+    let mut v = vec![];
+    for kind in [Kind::Account, Kind::Commodity] {
+        let (t, names): (&str, &[&str]) = match kind {
+            Kind::Account => ("Tgt:Acct", &["bank", "b b", "\u{9280}\u{884c}"]),
+            Kind::Commodity => ("TGT", &["$", "dollar", "\u{5186}"]),
+        };
+        for n in names {
+            let decl = |aliases: &[&str]| -> String {
+                let mut s = format!("{} {}\n", keyword(kind), t);
+                for a in aliases {
+                    s.push_str(&format!("  alias {}\n", a));
+                }
+                s.push('\n');
+                s
+            };
+            let u = |name: &str, amt: i128| use_of(kind, name, amt);
+            let root = |text: String| vec![(oka::ROOT.to_string(), text)];
+            let with_inc = |text: String, inc: String| vec![(oka::ROOT.to_string(), text), ("/v/decl.ledger".to_string(), inc)];
+            v.push((kind, "declared-before-any-use", "must", root(format!("{}{}{}", decl(&[n]), u(n, 1), u(t, 2))), 3, n.to_string()));
+            v.push((kind, "declared-after-first-use-of-canonical", "must", root(format!("{}{}{}", u(t, 1), decl(&[n]), u(n, 2))), 3, n.to_string()));
+            v.push((kind, "declared-in-included-file", "must", with_inc(format!("include decl.ledger\n\n{}{}", u(n, 1), u(t, 2)), decl(&[n])), 3, n.to_string()));
+            v.push((kind, "included-declaration-after-first-use", "must", with_inc(format!("{}include decl.ledger\n\n{}", u(t, 1), u(n, 2)), decl(&[n])), 3, n.to_string()));
+            v.push((kind, "alias-used-inside-included-file", "must", with_inc(format!("{}include decl.ledger\n\n{}", decl(&[n]), u(t, 4)), format!("{}{}", u(n, 1), u(t, 2))), 7, n.to_string()));
+            v.push((kind, "repeated-second-time-with-the-alias", "if-accepted", root(format!("{}{}{}{}", decl(&[]), u(t, 1), decl(&[n]), u(n, 2))), 3, n.to_string()));
+            v.push((kind, "repeated-with-another-alias", "if-accepted", root(format!("{}{}{}{}{}", decl(&["other"]), u("other", 1), decl(&[n]), u(n, 2), u("other", 4))), 7, n.to_string()));
+            v.push((kind, "declaration-file-included-twice", "if-accepted", with_inc(format!("include decl.ledger\n\n{}include decl.ledger\n\n{}", u(n, 1), u(n, 2)), decl(&[n])), 3, n.to_string()));
+        }
+    }
+    v
+}
+
+/// Verdict of an E3/E4 case: `must` = accepted with everything under the canonical name; `if-accepted` = rejection is
+/// not judged; `dont-care` = only recorded.
+fn judge_expectation(family: &str, kind: Kind, label: String, class_label: &str, verdict: &str, got: Result<Balances, String>, want: &Balances, alias: &str) -> Outcome {
+    let kn = kind_name(kind);
+    match (verdict, got) {
+        ("dont-care", got) => Outcome::dont_care(format!("{}/{}/{}/not-judged/{}", family, kn, class_label, match got {
+            Ok(b) if b == *want => "blank-is-trimmed,alias-resolves",
+            Ok(_) => "blank-kept-in-the-name,alias-does-not-resolve",
+            Err(_) => "rejected",
+        })),
+        (_, Ok(b)) if b == *want => Outcome::pass(format!("{}/{}/{}/{}", family, kn, class_label, if verdict == "must" { "accepted,under-canonical-name" } else { "accepted(not-required),under-canonical-name" })),
+        (_, Ok(b)) => Outcome::violation(format!("{}/{}/{}/{}", family, kn, miss_kind(kind, &b, alias), label), format!("expected balances {:?}\nobserved balances {:?}", show_bal(want), show_bal(&b))),
+        ("must", Err(e)) => Outcome::violation(format!("{}/{}/rejected/{}", family, kn, label), e),
+        (_, Err(_)) => Outcome::dont_care(format!("{}/{}/{}/rejected(not-judged)", family, kn, class_label)),
+    }
+}
+
+fn part_e(ctx: &mut Ctx, path: &Path) -> u64 {
+    let mut n = 0u64;
+    for (kind, names) in [(Kind::Account, account_names()), (Kind::Commodity, commodity_names())] {
+        ctx.fact(&format!("E_{}_names", kind_name(kind)), names.len() as u64);
+        for (shape, name) in &names {
+            for role in 0..2 {
+                n += 1;
+                if !ctx.next_is_mine() {
+                    ctx.skip_cases(1);
+                    continue;
+                }
+                let cli = if *shape == "realistic" { Some(path) } else { None };
+                ctx.case(
+                    || format!("[part E, names] {} name {:?} ({}, {}); role: {}\njudged only if the name is legal by doc/syntax.md and a declaration-free control ledger can write a posting with it", kind_name(kind), name, shape, name_category(name), ["alias of a plain canonical name", "canonical name with a plain alias"][role]),
+                    || judge_name(kind, shape, name, role, cli),
+                );
+            }
+        }
+    }
+    let blanks = blanks_cases();
+    ctx.fact("E_blank_cases", blanks.len() as u64);
+    for (kind, line, what, verdict, text) in blanks {
+        n += 1;
+        let (t, a) = match kind {
+            Kind::Account => ("Tgt:Acct", "b b"),
+            Kind::Commodity => ("TGT", "\u{5186}"),
+        };
+        ctx.case(
+            || format!("[part E, blanks] {} directive, {}: {} ({})\n--- ledger (escaped) ---\n{}", kind_name(kind), line, what, verdict, text.escape_debug()),
+            || judge_expectation("blanks", kind, format!("{}/{}", line, what), &format!("{}/{}", if line.contains("separator") || line.contains("indent") { "separator" } else { line }, if what.contains("U+") { "non-ascii-blank" } else { "ascii-blank" }), verdict, run_one(&text), &expect_under(kind, t, 3), a),
+        );
+    }
+    let placements = placement_cases();
+    ctx.fact("E_placement_cases", placements.len() as u64);
+    for (kind, placement, verdict, files, total, alias) in placements {
+        n += 1;
+        let t = match kind {
+            Kind::Account => "Tgt:Acct",
+            Kind::Commodity => "TGT",
+        };
+        ctx.case(
+            || format!("[part E, placement] {} directive {}, alias {:?} ({})\n{}", kind_name(kind), placement, alias, verdict, files.iter().map(|(p, t)| format!("--- {} ---\n{}", p, t)).collect::<String>()),
+            || {
+                let fs: Vec<(&str, &str)> = files.iter().map(|(p, t)| (p.as_str(), t.as_str())).collect();
+                judge_expectation("placement", kind, placement.to_string(), verdict, verdict, run_files(&fs), &expect_under(kind, t, total), &alias)
+            },
+        );
+    }
+    ctx.fact("E_cases", n);
+    n
+}
+
+// =================================================================================================
 // Part B — conflicts
 // =================================================================================================
 
@@ -1630,8 +1970,9 @@ fn run(ctx: &mut Ctx) {
     let a_states = part_a(ctx, &path);
     let c_states = part_c(ctx, &path, &dpath);
     let d_forms = part_d(ctx, &path);
+    let e_cases = part_e(ctx, &path);
     let b_states = part_b(ctx, &path);
-    ctx.fact("states", a_states + b_states + c_states + d_forms);
+    ctx.fact("states", a_states + b_states + c_states + d_forms + e_cases);
     ctx.fact("C_distinct_ledger_and_price_db_pairs", c_states);
     ctx.fact("A_distinct_ledgers", a_states);
     ctx.fact("B_states_plus_histories", b_states);
